@@ -313,7 +313,7 @@ class C08(Prop):
     rule = ("SAN lists (quick: up to 2 entries exhaustively over 1-label names and IP spellings, thorough: up to 3) x "
             "host names with 1-4 labels over the property's label alphabet {a,b,ab,*,a*,*a,a*b,**,xn--a,xn--*,empty}: "
             "single-SAN x host pairs exhaustive up to 2 labels (quick) / 3 labels (thorough) plus, for every SAN up to "
-            "3 (4) labels, the hosts derived from it (every '*' instantiated by '', a, b, ab, a.b, xn--a, '.', '*'; "
+            "2 labels and 350 sampled 3-label SANs (thorough: every SAN up to 4 labels), the hosts derived from it (every '*' instantiated by '', a, b, ab, a.b, xn--a, '.', '*'; "
             "labels added/dropped; case changed); a random stream with capitalised / regex-special / non-ASCII labels; "
             "IPv4/IPv6 literals in canonical, expanded, zero-padded, upper-case, embedded-IPv4, zoned, bracketed, "
             "newline-terminated and malformed spellings, on both sides; commonName on/off with and without SANs; "
@@ -343,14 +343,15 @@ class C08(Prop):
         for san in names(L):
             for i in range(0, len(hosts_full), chunk):
                 yield {"k": "pair", "san": san, "hosts": hosts_full[i:i + chunk]}
-        for san in names(4 if deep else 3):
+        n3 = list(names(3))
+        for san in (names(4) if deep else list(names(2)) + rng.sample(n3, 350)):
             yield {"k": "pair", "san": san, "hosts": derived_hosts(san)}
         n4 = list(names(4))
         for _ in range(4000 if deep else 300):
             yield {"k": "pair", "san": rng.choice(n4), "hosts": [rng.choice(n4) for _ in range(40)]}
         # random stream with labels outside the alphabet
         pool = LABELS + EXTRA_LABELS
-        for _ in range(30000 if deep else 2500):
+        for _ in range(30000 if deep else 1200):
             n = rng.randint(1, 4)
             san = ".".join(rng.choice(pool) for _ in range(n))
             hs = derived_hosts(san)
@@ -362,10 +363,12 @@ class C08(Prop):
         n2 = list(names(2))
         ipvals = ["1.2.3.4", "::1", "<invalid>", "1.2.3.4\n"]
         entries1 = [["DNS", v] for v in n1] + [["IP Address", v] for v in ipvals] + [["URI", "a"], ["DNS", "1.2.3.4"]]
-        hosts_b = n2 + ["1.2.3.4", "::1", "[::1]", "A", "XN--A", "0:0:0:0:0:0:0:1"]
+        small = ["a", "b", "*", "xn--a", ""]
+        hosts_b = (n2 if deep else n1 + [x + "." + y for x in small for y in small]) + \
+            ["1.2.3.4", "::1", "[::1]", "A", "XN--A", "0:0:0:0:0:0:0:1"]
         cn_sets = [[], ["a"], ["*.a"], ["**"], ["b", "a"]]
         for combo in itertools.product(entries1, repeat=2):
-            for cns in (cn_sets if deep else cn_sets[:3]):
+            for cns in (cn_sets if deep else cn_sets[:2]):
                 yield {"k": "cert", "san": list(combo), "cns": cns, "hosts": hosts_b}
         for e in entries1 + [None]:
             for cns in cn_sets + [["1.2.3.4"], ["xn--*"], ["a*"], ["A"]]:
@@ -375,7 +378,7 @@ class C08(Prop):
             for combo in itertools.product(e3, repeat=3):
                 yield {"k": "cert", "san": list(combo), "cns": rng.choice(cn_sets), "hosts": n1 + ["a.a", "1.2.3.4", "b.a"]}
         e_rand = [["DNS", v] for v in n2] + entries1
-        for _ in range(60000 if deep else 4000):
+        for _ in range(60000 if deep else 1500):
             k = rng.choice([1, 2, 2, 3, 3])
             san = [rng.choice(e_rand) for _ in range(k)]
             hs = []
@@ -394,13 +397,13 @@ class C08(Prop):
         for i in range(0, len(ss), 400):
             yield {"k": "iptext", "texts": ss[i:i + 400]}
         good = [s for s in sp if len(s) < 60]
-        for _ in range(12000 if deep else 1200):
+        for _ in range(12000 if deep else 500):
             sans = [rng.choice(good) for _ in range(rng.choice([1, 1, 2]))]
             hs = [rng.choice(good) for _ in range(12)] + sans + ["[" + s + "]" for s in sans]
             yield {"k": "ipcert", "sans": sans, "hosts": hs}
         canon = V4_BASES + V6_BASES + ["0:0:0:0:0:0:0:1", "FE80::1", "::ffff:102:304", "2001:DB8::1", "1.2.3.4\n", "::1 "]
         for s in canon:
-            yield {"k": "ipcert", "sans": [s], "hosts": sp[:700] if deep else sp[:420]}
+            yield {"k": "ipcert", "sans": [s], "hosts": sp[:700] if deep else sp[:420:2]}
         # E. fingerprints
         for i in range(400 if deep else 40):
             n = rng.choice([0, 1, 16, 64, 300])
